@@ -1067,13 +1067,17 @@ func (lm *levelManager) subcompact(it utils.Iterator, kr compact.KeyRange, cd co
 		}
 		// Leverage SSD parallel write throughput.
 		go func(builder *tableBuilder) {
-			defer inflightBuilders.Done(nil)
+			// A table that could not be built makes the whole compaction fail: its entries
+			// are in none of the outputs, and installing the others would drop them.
+			var buildErr error
+			defer func() { inflightBuilders.Done(buildErr) }()
 			defer builder.Close()
 			var tbl *table
 			newFID := atomic.AddUint64(&lm.maxFID, 1) // Compaction does not allocate memtables; advance maxFID.
 			sstName := utils.FileNameSSTable(lm.opt.WorkDir, newFID)
 			tbl = openTable(lm, sstName, builder)
 			if tbl == nil {
+				buildErr = fmt.Errorf("compaction: building output table %s failed", sstName)
 				return
 			}
 			res <- tbl
